@@ -429,7 +429,7 @@ def run(tier):
         explanation=("Decides the structural clause of C13 for every position and every cut point at once: on the MIR control-flow graph of every "
                      "function that writes the process-wide cache, each write is unreachable from the return of any call into an abortable search "
                      "function unless the path re-tests both abort predicates (is_running and limits_exceeded) on an edge whose abort side cannot "
-                     "reach the write; aborted nodes return before any effect; every way limits_exceeded says 'stop' is sticky or monotone; no "
+                     "reach the write; aborted nodes return before any effect; after a cache write the node searches no further child (an entry is written when the node's value is final, so an interruption cannot leave a provisional one); every way limits_exceeded says 'stop' is sticky or monotone; no "
                      "other function writes persistent state. This is a sufficient condition for the statement, not a sample of budgets."),
         assumptions=["rustc's MIR (mir-opt-level=0) is a faithful control-flow graph of the source",
                      "an aborted node is one whose entry test `!is_running() || limits_exceeded()` fired; the clock is monotone and limits are not modified during a search (checked: SearchLimits is written only in Search::search before iter_deep)",
